@@ -9,8 +9,11 @@
     * `c13_cosmetic_type`, `c13_cosmetic_field` — the transformation reads only type, name, namespace,
        fields, symbols, items, values, size (of a type) and name, type (of a field): any edit confined
        to other attributes, or to the order of attributes, leaves the canonical form unchanged.
+    * `c13_cosmetic_name`, `c13_inherited_namespace` — name and namespace attributes matter only through the
+       full name and the namespace put in effect (`Spec.fullNameOf`): namespace + name versus dotted name,
+       inherited versus spelled-out namespace.
   Tested, not proved (harness props/c13.py): the fixed-point and same-encoding clauses, which run
-  through `json.loads` and the binary codec, and the "namespace + name versus dotted name" rewrite.
+  through `json.loads` and the binary codec.
 -/
 import Proofs.Canon
 
@@ -60,6 +63,37 @@ theorem c13_cosmetic_field (f : Val → Option String) (kv kv' : List (Val × Va
     (hn : dictGetV kv "name" = dictGetV kv' "name") (ht : dictGetV kv "type" = dictGetV kv' "type") :
     Spec.fieldTextWith f (.dict kv) = Spec.fieldTextWith f (.dict kv') := by
   simp only [Spec.fieldTextWith, hn, ht]
+
+def C13_KEPT_BODY : List String := ["type", "fields", "symbols", "items", "values", "size"]
+
+/-- **C13 (namespace + name versus dotted name, inherited versus spelled-out namespace).** The name attributes reach
+    the canonical form only through the full name and the namespace they put in effect for nested types: two type
+    definitions with the same `Spec.fullNameOf` and the same kept attributes have the same canonical form. -/
+theorem c13_cosmetic_name (fuel : Nat) (kv kv' : List (Val × Val)) (ns : String)
+    (hname : Spec.fullNameOf kv ns = Spec.fullNameOf kv' ns)
+    (h : ∀ k ∈ C13_KEPT_BODY, dictGetV kv k = dictGetV kv' k) :
+    Spec.pcf fuel (.dict kv) ns = Spec.pcf fuel (.dict kv') ns := by
+  have h1 := h "type" (by decide)
+  have h4 := h "fields" (by decide)
+  have h5 := h "symbols" (by decide)
+  have h6 := h "items" (by decide)
+  have h7 := h "values" (by decide)
+  have h8 := h "size" (by decide)
+  cases fuel with
+  | zero => rfl
+  | succ fuel => simp only [Spec.pcf, dictListOr, hname, h1, h4, h5, h6, h7, h8]
+
+/-- spelling out the namespace a type would inherit anyway changes nothing -/
+theorem c13_inherited_namespace (kv kv' : List (Val × Val)) (ns : String)
+    (hn : dictGetV kv "name" = dictGetV kv' "name")
+    (h0 : dictGetV kv "namespace" = none) (h1 : dictGetV kv' "namespace" = some (.str ns)) :
+    Spec.fullNameOf kv ns = Spec.fullNameOf kv' ns := by
+  simp only [Spec.fullNameOf, hn, h0, h1]
+
+/- `{"namespace": "a.b", "name": "R"}` and `{"name": "a.b.R"}` have the same full name and put the same namespace
+   in effect (compiled evaluation: the kernel cannot unfold `splitOn`) -/
+#guard Spec.fullNameOf [(.str "name", .str "R"), (.str "namespace", .str "a.b")] "x" ==
+       Spec.fullNameOf [(.str "name", .str "a.b.R")] "x"
 
 /-! non-vacuity (evaluated with `#guard`, i.e. by the compiler — the kernel cannot unfold the string
     primitives `contains`/`splitOn`; this is a witness that the hypothesis is satisfiable, not a proof
